@@ -224,11 +224,29 @@ class Engine:
             r = h(it, v, fr)
             if r is not NotImplemented:
                 return r
+        self.interfere(it)
         if isinstance(v, Coro):
             return self.run_coro(it, v)
         if isinstance(v, VRef) and isinstance(it.ctx.heap.get(v.addr), HObj) and it.ctx.heap[v.addr].cls == "ext:asyncio.Task":
             return models.await_task(it, v)
         return v
+
+    def interfere(self, it):
+        """At an await of the function under contract other tasks may run: the contract's `at_await`
+        statements (its rely condition, e.g. "somebody adds a task") are executed, or not."""
+        cur = self.current
+        lines = getattr(cur, "at_await", None) if cur is not None else None
+        fr = getattr(self, "entry_frame", None)
+        if not lines or fr is None or it.ctx.nofork or getattr(self, "_interfering", False):
+            return
+        if it.ctx.choose("another task runs at this await"):
+            self._interfering = True
+            try:
+                gfr = Frame(self.contract_module(cur), fr.locals, closure=None)   # same locals, spec vocabulary
+                for line in lines:
+                    it.exec_block(ast.parse(line).body, gfr)
+            finally:
+                self._interfering = False
 
     def run_coro(self, it, co):
         if co.done:
@@ -322,7 +340,8 @@ class Engine:
         if k == "tup":
             return tuple(self.make_sym(ctx, s, f"{name}[{i}]") for i, s in enumerate(shape.items))
         if k == "fixedlist":
-            items = [self.make_sym(ctx, s, f"{name}[{i}]") for i, s in enumerate(shape.items)]
+            items = [self.make_sym(ctx, s, f"{name}[{i}]") for i, s in enumerate(shape.items)
+                     if not shape.optional or ctx.branch(z3.Bool(f"{name}.has[{i}]"), f"{name} has item {i}")]
             if shape.container == "tuple":
                 return tuple(items)
             if shape.container == "set":
@@ -746,8 +765,9 @@ class Engine:
                 g = self.eval_clause(it, expr, sfr)
                 ctx.check(f"{fname}::loop[{key}].{kind}.{nm}", g, kind="loop_" + kind, state=dict(fr.locals))
 
+        gfr_ = Frame(self.contract_module(self.current), fr.locals, closure=None)
         for line in spec.get("ghost_init", []):
-            it.exec_block(ast.parse(line).body, fr)
+            it.exec_block(ast.parse(line).body, gfr_)
         check_invs("init")
         # havoc everything the body may assign
         targets = self.assigned_names(node.body)
@@ -775,7 +795,7 @@ class Engine:
                 fr.locals[nme] = self.fresh_like(ctx, fr.locals[nme], nme)
         for obj_attr, shape in spec.get("havoc_fields", {}).items():
             parts = obj_attr.split(".")
-            ref = fr.locals[parts[0]]
+            ref = fr.locals[parts[0]] if parts[0] in fr.locals else ctx.ghost[parts[0]]
             for p in parts[1:-1]:
                 ref = ref.val if isinstance(ref, VOpt) else ref
                 ref = ctx.heap[ref.addr].fields[p]
@@ -815,7 +835,7 @@ class Engine:
                 broke = True
             if not broke:
                 for line in spec.get("ghost_stmts", []):
-                    it.exec_block(ast.parse(line).body, fr)
+                    it.exec_block(ast.parse(line).body, Frame(self.contract_module(self.current), fr.locals, closure=None))
                 if is_for:
                     fr.locals[idx] = mk(iz + 1, "int")
                 check_invs("preserve")
@@ -1116,6 +1136,16 @@ class Engine:
             if r == z3.unsat:
                 rep.error = "vacuous: requires are contradictory"
                 raise PathEnd()
+        spec_names = {}
+        for line in getattr(c, "ghost_init", []):
+            gfr = Frame(cm, dict(fr.locals), closure=None)
+            it.exec_block(ast.parse(line).body, gfr)
+            for kname, kv in gfr.locals.items():
+                if kname not in fr.locals:
+                    fr.locals[kname] = kv
+                    spec_names[kname] = kv
+        self.entry_frame = fr
+        self.spec_locals = spec_names
         old_locals = dict(fr.locals)
         old_locals.update(ctx.ghost)
         old_heap = ctx.snapshot_heap()
@@ -1220,7 +1250,7 @@ class Engine:
                 if isinstance(h, HObj):
                     for x in h.fields.values():
                         reach(x)
-                elif isinstance(h, HList):
+                elif isinstance(h, (HList, HSet)):
                     for x in h.items:
                         reach(x)
                 elif isinstance(h, HDict):
@@ -1232,9 +1262,13 @@ class Engine:
             elif isinstance(v, tuple):
                 for x in v:
                     reach(x)
+        for gv in getattr(self, "spec_locals", {}).values():
+            reach(gv)       # ghost variables of the contract (ghost_init) are the spec's own
         for path in c.modifies:
             parts = path.split(".")
             cur = old_locals.get(parts[0])
+            if cur is None:
+                cur = ctx.ghost.get(parts[0])
             ok = True
             for p in parts[1:-1]:
                 if isinstance(cur, VRef) and isinstance(old_heap.get(cur.addr), HObj):
